@@ -86,7 +86,7 @@ fn print_one<S>(
         }
     }
     if !options_to_print.is_empty() || context.builtin_is_significant {
-        let separator = if function.name.starts_with('-') {
+        let separator = if function.name.starts_with(['-', '+']) {
             "-- "
         } else {
             ""
